@@ -183,9 +183,16 @@ FIXTURES = {
     'simple.gml': ('graph [\n' + ''.join('  node [ id %d ]\n' % i for i in range(1, 8)) +
                    ''.join('  edge [ source %d target %d ]\n' % (i, 1 + (i * 3) % 7) for i in range(1, 8)
                            if i != 1 + (i * 3) % 7) + ']\n'),
+    'small.cnf': 'c a small formula\np cnf 4 3\n1 -2 0\n2 3 -4 0\n-1 4 0\n',
     'dag.dot': ('digraph D {\n' + ''.join('%d;\n' % i for i in range(1, 7)) +
                 '1 -> 3;\n2 -> 3;\n3 -> 5;\n4 -> 5;\n5 -> 6;\n2 -> 6;\n}\n'),
     'dag.kthlist': '6\n1 : 0\n2 : 0\n3 : 1 2 0\n4 : 0\n5 : 3 4 0\n6 : 2 5 0\n',
+    # names that read as integers mixed with names that do not
+    'mixed.dot': ('graph M {\n' + ''.join('%s;\n' % x for x in ('1', '2', '3', 'a', 'b', 'c', 'd', '10')) +
+                  ''.join('%s -- %s;\n' % e for e in [('1', 'a'), ('a', 'b'), ('b', '2'), ('c', '3'),
+                                                       ('d', '10'), ('c', 'd'), ('1', '10'), ('2', 'c')]) + '}\n'),
+    'mixeddag.dot': ('digraph MD {\n' + ''.join('%s;\n' % x for x in ('1', '2', 'x', 'y', 'z')) +
+                     '1 -> x;\n2 -> x;\nx -> y;\n1 -> z;\ny -> z;\n}\n'),
 }
 
 
@@ -208,6 +215,14 @@ def file_menu():
     for f in ('dag.dot', 'dag.kthlist'):
         c('cnfgen', 'peb {FX}/' + f)
         c('cnfgen', 'stone 3 {FX}/' + f)
+    c('cnfgen', 'kcolor 3 {FX}/mixed.dot')
+    c('cnfgen', 'tseitin randomodd dot {FX}/mixed.dot addedges 2')
+    c('cnfgen', 'kclique 3 {FX}/mixed.dot plantclique 3')
+    c('pbgen', 'matching {FX}/mixed.dot')
+    # reading the formula / the graph: the prompts for a user at a terminal
+    c('cnfgen', 'dimacs {FX}/small.cnf -T shuffle')
+    c('cnfgen', 'dimacs {FX}/small.cnf')
+    c('cnfshuffle', '-i {FX}/small.cnf')
     # the same file name relative to the working directory: every working
     # directory of the process part holds a copy of the fixtures
     c('cnfgen', 'kcolor 3 {REL}simple.gml')
@@ -250,8 +265,9 @@ def make_dirs():
     return base, gitdir, plain
 
 
-def run_batch(jobs, hashseed, cwd):
+def run_batch(jobs, hashseed, cwd, tty=False):
     env = dict(os.environ)
+    env['C07_TTY'] = '1' if tty else '0'
     env['PYTHONHASHSEED'] = str(hashseed)
     env['VERIF_REPO_PATH'] = os.environ.get('VERIF_REPO', REPO)
     env['PYTHONDONTWRITEBYTECODE'] = '1'
@@ -266,7 +282,9 @@ def run_batch(jobs, hashseed, cwd):
 
 def configs(tier):
     # (label, PYTHONHASHSEED, directory kind)
-    cs = [('hs0-git', '0', 'git'), ('hs1-plain', '1', 'plain'), ('hsrandom-plain', 'random', 'plain')]
+    # a directory kind ending in '+tty': standard input is a terminal
+    cs = [('hs0-git', '0', 'git'), ('hs1-plain', '1', 'plain'), ('hsrandom-plain', 'random', 'plain'),
+          ('hs3-plain-terminal', '3', 'plain+tty')]
     if tier == 'thorough':
         cs += [('hs2-git', '2', 'git'), ('hs0-git-again', '0', 'git'), ('hsrandom-git', 'random', 'git')]
     return cs
@@ -286,7 +304,8 @@ def run_processes(args, R):
                  'stdin': s} for (t, a, s) in batch]
         results = {}
         for (label, hs, kind) in configs(tier):
-            results[label] = run_batch(jobs, hs, gitdir if kind == 'git' else plain)
+            results[label] = run_batch(jobs, hs, gitdir if kind.startswith('git') else plain,
+                                       tty=kind.endswith('+tty'))
             R.stats['process_runs'] += 1
         labels = list(results)
         for i, job in enumerate(jobs):
@@ -700,7 +719,8 @@ def replay(case):
         job = {'tool': case['tool'], 'argv': [x.replace('{FX}', fx).replace('{REL}', '')
                                               for x in case['argv']],
                'stdin': case['stdin']}
-        res = [(lab, run_batch([job], hs, gitdir if kind == 'git' else plain)[0])
+        res = [(lab, run_batch([job], hs, gitdir if kind.startswith('git') else plain,
+                               tty=kind.endswith('+tty'))[0])
                for (lab, hs, kind) in configs(case.get('tier', 'quick'))]
     finally:
         shutil.rmtree(base, ignore_errors=True)
